@@ -5,6 +5,7 @@
 //!
 //! One request per stdin line, one answer per stdout line (see DESIGN.md Appendix B).
 
+mod net;
 mod resp;
 mod store;
 mod util;
@@ -86,8 +87,15 @@ fn main() {
             let mut st = store::Store::new(root.into());
             run_lines(|toks| st.step(toks));
         }
+        "net" => {
+            let root = arg_after(&args, "--root").expect("--root");
+            std::fs::create_dir_all(&root).unwrap();
+            start_watchdog(arg_after(&args, "--hang-ms").and_then(|s| s.parse().ok()).unwrap_or(60000));
+            let mut n = net::Net::new(root.into());
+            run_lines(|toks| n.step(toks));
+        }
         _ => {
-            eprintln!("usage: bcharness resp|store ...");
+            eprintln!("usage: bcharness resp|store|net ...");
             std::process::exit(2);
         }
     }
